@@ -129,6 +129,14 @@ class Exec:
             return
         if f is False:
             raise Infeasible()
+        if z3.is_quantifier(f) and f.is_exists():
+            # an existential hypothesis is its body at fresh witnesses (keeps it within the quantifier-free stages)
+            ws = [z3.FreshConst(f.var_sort(i), "w_" + f.var_name(i).replace("#", "_")) for i in range(f.num_vars())]
+            f = z3.substitute_vars(f.body(), *reversed(ws))
+            if z3.is_and(f):
+                for c in f.children():
+                    self.pc.append(c)
+                return
         self.pc.append(f)
 
     def oblige(self, name, goal, kind, line=None, expect="proved", meta=None):
